@@ -37,6 +37,21 @@ type c08FS struct {
 	scratch storage.FileSystem // where a dead instance's writes end up (nobody else reads it)
 	dead    *atomic.Bool
 	gate    atomic.Pointer[c08Gate]
+	delGate atomic.Pointer[c08Gate] // holds back the first deletion of a WAL file (the loop at the end of Save)
+}
+
+func (f *c08FS) armDelGate() *c08Gate {
+	g := &c08Gate{reached: make(chan struct{}), open: make(chan struct{})}
+	g.armed.Store(true)
+	f.delGate.Store(g)
+	return g
+}
+
+func (f *c08FS) atDelete(name string) {
+	if g := f.delGate.Load(); g != nil && strings.HasSuffix(name, ".wal") && g.armed.CompareAndSwap(true, false) {
+		close(g.reached)
+		<-g.open
+	}
 }
 
 // c08Gate holds back one Save of the `checkpoints` file: the writer announces itself on reached and waits for open.
@@ -62,7 +77,9 @@ func newC08FS(inner storage.FileSystem, dead bool) *c08FS {
 func (f *c08FS) New(path string) storage.File {
 	return &c08NewFile{fs: f, proto: f.inner.New(path)}
 }
-func (f *c08FS) Open(path string) storage.File { return &c08File{File: f.inner.Open(path), dead: f.dead} }
+func (f *c08FS) Open(path string) storage.File {
+	return &c08File{File: f.inner.Open(path), dead: f.dead, fs: f}
+}
 func (f *c08FS) Copy(src, dst string) error {
 	if f.dead.Load() {
 		return nil
@@ -74,9 +91,11 @@ func (f *c08FS) Copy(src, dst string) error {
 type c08File struct {
 	storage.File
 	dead *atomic.Bool
+	fs   *c08FS
 }
 
 func (f *c08File) Delete() error {
+	f.fs.atDelete(f.File.Name())
 	if f.dead.Load() {
 		return nil
 	}
@@ -153,6 +172,7 @@ func (f *c08NewFile) Size() int64 {
 }
 
 func (f *c08NewFile) Delete() error {
+	f.fs.atDelete(f.proto.Name())
 	if f.fs.dead.Load() {
 		return nil
 	}
@@ -263,7 +283,14 @@ type c08Run struct {
 	uriID    map[string]int
 	snap     map[uint64]map[string]string
 	corrupt  string
+	usedIDs  []uint64 // checkpoint ids used by the running instance
 	held     *c08Held
+	// the handles the user holds (they survive reopen), the directory number of each handle's document, and the
+	// handles older than a checkpoint the database was reopened from (D50 situation) — mirrors Ckpt.stepSpec
+	user    map[uint64]recovery.CheckpointHandle
+	userDir map[uint64]int
+	lost    map[uint64]bool
+	dirIdx  int
 	liveOf   *dkv.DB
 	liveSnap map[string]string
 	keep     []any
@@ -370,7 +397,19 @@ func (r *c08Run) listLocked() bool {
 
 // hold starts call, whose save of the checkpoints file stops at the gate; reports whether the gate was reached.
 func (r *c08Run) hold(id uint64, isCd bool, start func(), call func() (recovery.CheckpointHandle, error)) bool {
-	g := r.fs.armGate() // armed before the save can start
+	ok, _ := r.holdAt(false, id, isCd, start, call)
+	return ok
+}
+
+// holdAt: atDelete = stop at the first WAL deletion (after the document write) instead of at the document write.
+// Returns (held, finished): finished = the call completed without reaching the gate (nothing to delete).
+func (r *c08Run) holdAt(atDelete bool, id uint64, isCd bool, start func(), call func() (recovery.CheckpointHandle, error)) (bool, *c08SaveRes) {
+	var g *c08Gate
+	if atDelete {
+		g = r.fs.armDelGate()
+	} else {
+		g = r.fs.armGate() // armed before the save can start
+	}
 	if start != nil {
 		start()
 	}
@@ -387,10 +426,13 @@ func (r *c08Run) hold(id uint64, isCd bool, start func(), call func() (recovery.
 	select {
 	case <-g.reached:
 		r.held = &c08Held{gate: g, id: id, isCd: isCd, res: res}
-		return true
+		return true, nil
+	case x := <-res:
+		g.armed.Store(false)
+		return false, &x
 	case <-time.After(schedGrace):
 		g.armed.Store(false)
-		return false
+		return false, nil
 	}
 }
 
@@ -452,6 +494,38 @@ func (r *c08Run) snapshot(h recovery.CheckpointHandle) {
 		}
 		r.snap[h.CheckpointID] = m
 		return
+	}
+}
+
+// gotHandle: Checkpoint returned the handle of id to the user.
+func (r *c08Run) gotHandle(id uint64, h recovery.CheckpointHandle) {
+	r.handles[id] = h
+	r.snapshot(h)
+	if slices.Contains(r.lineage, id) {
+		r.user[id] = h
+		r.userDir[id] = r.dirIdx
+	}
+}
+
+func c08Keeps(ids []uint64, id uint64) bool {
+	var newest uint64
+	for _, x := range ids {
+		newest = max(newest, x)
+	}
+	return slices.Contains(ids, id) || id > newest
+}
+
+// userRetain: the user gives up the handles a retention update does not keep.
+func (r *c08Run) userRetain(ids []uint64) {
+	for id := range r.user {
+		if !c08Keeps(ids, id) {
+			delete(r.user, id)
+		}
+	}
+	for id := range r.lost {
+		if !c08Keeps(ids, id) {
+			delete(r.lost, id)
+		}
 	}
 }
 
@@ -524,7 +598,8 @@ func runC08Trace(c lib.Case) []string {
 	}
 	c07Seq++
 	r := &c08Run{cfg: cfg, base: storage.NewMemoryFilesystem(), root: fmt.Sprintf("/c08-%d", c07Seq),
-		handles: map[uint64]recovery.CheckpointHandle{}, uriID: map[string]int{}, snap: map[uint64]map[string]string{}}
+		handles: map[uint64]recovery.CheckpointHandle{}, uriID: map[string]int{}, snap: map[uint64]map[string]string{},
+		user: map[uint64]recovery.CheckpointHandle{}, userDir: map[uint64]int{}, lost: map[uint64]bool{}}
 	r.start(r.root, nil)
 	defer func() {
 		if r.corrupt != "" && r.db != nil {
@@ -589,14 +664,17 @@ func runC08Trace(c lib.Case) []string {
 				emit("blocked") // CheckpointList.Add would wait for the held save (with db.mu held)
 				continue
 			}
-			if slices.Contains(r.lineage, id) || r.waits[id] != nil {
-				emit("disabled")
+			if slices.Contains(r.usedIDs, id) {
+				emit("disabled") // "this ID must not be repeated between checkpoints" (of one instance)
 				continue
 			}
+			r.usedIDs = append(r.usedIDs, id)
 			r.waits[id] = c08Wait(db.Checkpoint(id))
 			r.phase[id] = 0
 			r.lineage = append(r.lineage, id)
 			delete(r.handles, id)
+			delete(r.user, id)
+			delete(r.lost, id)
 			emit("captured")
 		case "cw":
 			id, _ := strconv.ParseUint(f[1], 10, 64)
@@ -650,8 +728,7 @@ func runC08Trace(c lib.Case) []string {
 					emit("err " + c08Short(x.err.Error()))
 					continue
 				}
-				r.handles[id] = x.h
-				r.snapshot(x.h)
+				r.gotHandle(id, x.h)
 				emit("ok")
 			case <-time.After(schedGrace):
 				emit("timeout")
@@ -673,11 +750,49 @@ func runC08Trace(c lib.Case) []string {
 				if hd.isCd {
 					delete(r.waits, hd.id)
 					delete(r.phase, hd.id)
-					r.handles[hd.id] = x.h
-					r.snapshot(x.h)
+					r.gotHandle(hd.id, x.h)
 				}
 				emit("ok")
 			case <-time.After(schedGrace):
+				emit("timeout")
+			}
+		case "hretaind":
+			// a retention update stopped after its document write, at the first deletion of a dropped checkpoint's WAL
+			ids := c08ParseIDs(f[1])
+			if r.listLocked() {
+				emit("blocked")
+				continue
+			}
+			kept := r.keptBy(ids)
+			if len(kept) == 0 {
+				emit("refused")
+				continue
+			}
+			if r.held != nil {
+				if err := db.UpdateRetainedCheckpoints(ids); err != nil {
+					emit("err " + c08Short(err.Error()))
+					continue
+				}
+				r.lineage = kept
+				r.userRetain(ids)
+				emit("ok")
+				continue
+			}
+			held, fin := r.holdAt(true, 0, false, nil, func() (recovery.CheckpointHandle, error) {
+				return recovery.CheckpointHandle{}, db.UpdateRetainedCheckpoints(ids)
+			})
+			switch {
+			case held:
+				r.lineage = kept
+				r.userRetain(ids)
+				emit("held")
+			case fin != nil && fin.err == nil:
+				r.lineage = kept
+				r.userRetain(ids)
+				emit("ok")
+			case fin != nil:
+				emit("err " + c08Short(fin.err.Error()))
+			default:
 				emit("timeout")
 			}
 		case "retain", "hretain":
@@ -692,6 +807,7 @@ func runC08Trace(c lib.Case) []string {
 					return recovery.CheckpointHandle{}, db.UpdateRetainedCheckpoints(ids)
 				}) {
 					r.lineage = kept
+					r.userRetain(ids)
 					emit("held")
 				} else {
 					emit("timeout")
@@ -707,6 +823,7 @@ func runC08Trace(c lib.Case) []string {
 				continue
 			}
 			r.lineage = kept
+			r.userRetain(ids)
 			emit("ok")
 		case "reopen":
 			id, _ := strconv.ParseUint(f[1], 10, 64)
@@ -721,12 +838,29 @@ func runC08Trace(c lib.Case) []string {
 				r.dirN++
 				dir = fmt.Sprintf("%s-d%d", r.root, r.dirN)
 			}
+			// a restore from id abandons the later checkpoints; the user keeps the handles of the earlier ones
+			for h := range r.user {
+				if h > id {
+					delete(r.user, h)
+				} else if h < id {
+					r.lost[h] = true
+				}
+			}
+			for h := range r.lost {
+				if h > id {
+					delete(r.lost, h)
+				}
+			}
+			if f[2] == "fresh" {
+				r.dirIdx = r.dirN
+			}
 			if e := r.start(dir, []recovery.CheckpointHandle{h}); e != "" {
 				r.crash() // frees whatever the failed start left parked; later operations answer no-db
 				emit("failed " + e)
 				continue
 			}
 			r.lineage = []uint64{id}
+			r.usedIDs = []uint64{id}
 			r.handles = map[uint64]recovery.CheckpointHandle{id: h}
 			// the loaded tables keep the model ids they had; numbering continues above them
 			for _, lvl := range r.db.VerifLevels().VerifLayout() {
@@ -752,11 +886,24 @@ func runC08Trace(c lib.Case) []string {
 			emit(fmt.Sprintf("opened n=%d rots=%s", len(rots), rstr))
 		case "peek":
 			id, _ := strconv.ParseUint(f[1], 10, 64)
-			if !r.retainedDone(id) {
+			h, ok := r.user[id]
+			if !ok || (r.held != nil && r.held.isCd && r.held.id == id) {
 				emit("refused")
 				continue
 			}
-			emit(r.peek(r.handles[id]))
+			if !slices.Contains(r.lineage, id) && r.held != nil {
+				emit("unsettled")
+				continue
+			}
+			if !slices.Contains(r.lineage, id) && r.userDir[id] != r.dirIdx {
+				emit("otherdir")
+				continue
+			}
+			res := r.peek(h)
+			if strings.Contains(res, "failed_to_find_indicated_checkpoint_ID") {
+				res = "failed"
+			}
+			emit(res)
 		case "intact":
 			emit(r.intact())
 		default:
@@ -1001,6 +1148,24 @@ type c08Gen struct {
 	lineage []uint64
 	phase   map[uint64]int // 0 captured, 1 WAL saved, 2 done
 	big     bool           // some values are 60-72 KB
+	user    []uint64       // handles the user holds (they survive reopen)
+}
+
+func (g *c08Gen) finish(id uint64) {
+	g.phase[id] = 2
+	if slices.Contains(g.lineage, id) && !slices.Contains(g.user, id) {
+		g.user = append(g.user, id)
+	}
+}
+
+func (g *c08Gen) userIDs() []uint64 {
+	ids := slices.Clone(g.user)
+	slices.Sort(ids)
+	return ids
+}
+
+func (g *c08Gen) userRetain(ids []uint64) {
+	g.user = slices.DeleteFunc(g.user, func(id uint64) bool { return !c08Keeps(ids, id) })
 }
 
 func (g *c08Gen) add(op string) { g.ops = append(g.ops, op) }
@@ -1049,6 +1214,7 @@ func (g *c08Gen) checkpoint() {
 	g.add(fmt.Sprintf("ckpt %d", id))
 	g.lineage = append(g.lineage, id)
 	g.phase[id] = 0
+	g.user = slices.DeleteFunc(g.user, func(x uint64) bool { return x == id })
 }
 
 func (g *c08Gen) write() {
@@ -1072,6 +1238,7 @@ func (g *c08Gen) reopen(id uint64) {
 	g.add(fmt.Sprintf("reopen %d %s", id, mode))
 	g.lineage = []uint64{id}
 	g.phase = map[uint64]int{id: 2}
+	g.user = slices.DeleteFunc(g.user, func(x uint64) bool { return x > id })
 	g.next = id + 1 // a restored job continues numbering after the checkpoint it restored (ids of the abandoned future are reused)
 	g.observe(g.r.Chance(1, 2))
 }
@@ -1112,8 +1279,9 @@ func (g *c08Gen) overlap() {
 		for _, id := range ids {
 			ss = append(ss, strconv.FormatUint(id, 10))
 		}
-		g.add("hretain " + strings.Join(ss, ","))
+		g.add(lib.Pick(g.r, []string{"hretain ", "hretain ", "hretaind "}) + strings.Join(ss, ","))
 		g.lineage = g.keptBy(ids)
+		g.userRetain(ids)
 	} else {
 		return
 	}
@@ -1139,16 +1307,16 @@ func (g *c08Gen) overlap() {
 				g.add(fmt.Sprintf("retain %d", g.lineage[len(g.lineage)-1]))
 			}
 		default:
-			if d := g.doneIDs(); len(d) > 0 {
+			if d := g.userIDs(); len(d) > 0 {
 				g.add(fmt.Sprintf("peek %d", lib.Pick(g.r, d)))
 			}
 		}
 	}
 	g.add("release")
 	if heldID != 0 {
-		g.phase[heldID] = 2
+		g.finish(heldID)
 	}
-	for _, id := range g.doneIDs() {
+	for _, id := range g.userIDs() {
 		g.add(fmt.Sprintf("peek %d", id))
 	}
 	g.add(fmt.Sprintf("peek %d", probe))
@@ -1177,7 +1345,7 @@ func genC08Ops(r *lib.Rng, n int, big bool) []string {
 				g.add(fmt.Sprintf("cw %d", id))
 				g.bgSome(2)
 				g.add(fmt.Sprintf("cd %d", id))
-				g.phase[id] = 2
+				g.finish(id)
 			}
 		case x < 80:
 			if p := g.pendingIDs(0); len(p) > 0 {
@@ -1187,13 +1355,13 @@ func genC08Ops(r *lib.Rng, n int, big bool) []string {
 			} else if p := g.pendingIDs(1); len(p) > 0 {
 				id := lib.Pick(r, p)
 				g.add(fmt.Sprintf("cd %d", id))
-				g.phase[id] = 2
+				g.finish(id)
 			}
 		case x < 83:
 			if p := g.pendingIDs(1); len(p) > 0 {
 				id := lib.Pick(r, p)
 				g.add(fmt.Sprintf("cd %d", id))
-				g.phase[id] = 2
+				g.finish(id)
 			}
 		case x < 86:
 			if len(g.lineage) > 0 {
@@ -1212,13 +1380,14 @@ func genC08Ops(r *lib.Rng, n int, big bool) []string {
 				}
 				g.add("retain " + strings.Join(ss, ","))
 				g.lineage = g.keptBy(ids)
+				g.userRetain(ids)
 			}
 		case x < 91:
 			if d := g.doneIDs(); len(d) > 0 {
 				g.reopen(lib.Pick(r, d))
 			}
 		case x < 95:
-			if d := g.doneIDs(); len(d) > 0 {
+			if d := g.userIDs(); len(d) > 0 {
 				g.add(fmt.Sprintf("peek %d", lib.Pick(r, d)))
 			}
 		case x < 98:
@@ -1229,7 +1398,7 @@ func genC08Ops(r *lib.Rng, n int, big bool) []string {
 	}
 	// final: every retained completed checkpoint still restores, then the current instance is observed
 	g.add("intact")
-	for _, id := range g.doneIDs() {
+	for _, id := range g.userIDs() {
 		g.add(fmt.Sprintf("peek %d", id))
 	}
 	g.observe(true)
@@ -1261,6 +1430,20 @@ func c08Fixed() []lib.Case {
 			"bg f", "bg f", "put " + k2 + " " + c08Big(0x44, 66000), "ckpt 2", "put " + z + " " + c08Big(0x45, 61000), "bg f", "bg f", "bg f", "bg f",
 			"put " + k3 + " " + c08Big(0x46, 65000), "put " + k + " " + c08Big(0x47, 59000), "cw 2", "cd 2", "peek 1", "peek 2", "reopen 2 same", "scan -", "intact"},
 			Tags: []string{"late-wal-save-large-segments"}},
+		// D50 (open): checkpoints 1 and 2 retained, restart from 2 in the same directory, checkpoint 3: the document is
+		// rewritten with [2,3] and the handle of 1, which the user never gave up, no longer opens. Right after the
+		// restart it still does.
+		{Header: hdr, Ops: []string{"put " + k + " 01", "ckpt 1", "cw 1", "cd 1", "put " + k2 + " 02", "ckpt 2", "cw 2", "cd 2", "retain 1,2",
+			"reopen 2 same", "peek 1", "put " + k3 + " 03", "ckpt 3", "cw 3", "cd 3", "peek 1", "peek 2", "peek 3", "intact"}, Tags: []string{"witness-D50"}},
+		// the same with the restart in a fresh directory: the old directory's document is left alone, handle 1 keeps working
+		// (its document is outside the model's single name space: `otherdir`)
+		{Header: hdr, Ops: []string{"put " + k + " 01", "ckpt 1", "cw 1", "cd 1", "put " + k2 + " 02", "ckpt 2", "cw 2", "cd 2", "retain 1,2",
+			"reopen 2 fresh", "put " + k3 + " 03", "ckpt 3", "cw 3", "cd 3", "peek 1", "peek 2", "peek 3"}, Tags: []string{"D50-fresh-directory"}},
+		// crash between the storage operations of a retention update: the document is written, the WAL of the dropped
+		// checkpoint not yet deleted; the kept checkpoint restores, also when the deletion is never made
+		{Header: hdr, Ops: []string{"put " + k + " 01", "ckpt 1", "cw 1", "cd 1", "put " + k2 + " 02", "ckpt 2", "cw 2", "cd 2", "hretaind 2",
+			"peek 2", "ckpt 3", "release", "peek 2", "put " + k3 + " 03", "ckpt 3", "cw 3", "cd 3", "hretaind 3", "peek 3", "reopen 3 same", "scan -",
+			"peek 3", "intact"}, Tags: []string{"crash-inside-save"}},
 		// retention keeps the listed checkpoints and every newer one; the dropped one is gone, the kept ones restore
 		{Header: hdr, Ops: []string{"put " + k + " 01", "ckpt 1", "cw 1", "cd 1", "put " + k2 + " 02", "ckpt 2", "cw 2", "cd 2", "put " + k3 + " 03",
 			"ckpt 3", "cw 3", "cd 3", "put " + k + " 04", "ckpt 4", "retain 2", "peek 1", "peek 2", "peek 3", "cw 4", "cd 4", "peek 4", "retain 4,2",
@@ -1326,7 +1509,7 @@ func propC08() *lib.Prop {
 		MObs: func(op string) bool {
 			return strings.HasPrefix(op, "bg ") || strings.HasPrefix(op, "cw ") || strings.HasPrefix(op, "cd ") ||
 				strings.HasPrefix(op, "ckpt ") || strings.HasPrefix(op, "retain ") || strings.HasPrefix(op, "hcd ") ||
-				strings.HasPrefix(op, "hretain ") || op == "release"
+				strings.HasPrefix(op, "hretain ") || strings.HasPrefix(op, "hretaind ") || op == "release"
 		},
 	}
 }
